@@ -40,6 +40,9 @@ const (
 	opDUP1         = 0x80
 	opLOG2         = 0xa2
 	opCREATE       = 0xf0
+	opCREATE2      = 0xf5
+	opCALLDATASIZE = 0x36
+	opCALLDATACOPY = 0x37
 	opRETURN       = 0xf3
 	opREVERT       = 0xfd
 	opSELFDESTRUCT = 0xff
@@ -134,6 +137,31 @@ func initCodeFor(runtime []byte) []byte {
 }
 
 var contractInit = initCodeFor(contractRuntime)
+
+// The FACTORY (part of the genesis allocation on "+factory" chains): CREATE2(value 0, init code = calldata, salt 0);
+// slot6 = the created address (0 on failure). Calling it again after the child self-destructed re-creates the child at
+// the SAME address.
+var factoryRuntime = asm(
+	opCALLDATASIZE, "#0", "#0", opCALLDATACOPY,
+	"#0", opCALLDATASIZE, "#0", "#0", opCREATE2,
+	"#6", opSSTORE, opSTOP,
+)
+
+// Init code of the CREATE2 child: the constructor READS slot 1 of the address it is created at (zero on a fresh address,
+// and zero again after a previous incarnation self-destructed) and stores slot3 = slot1 + 0x100; slot 1 is not written.
+// The runtime is the multi-purpose contract.
+func init2CodeFor(runtime []byte) []byte {
+	mk := func(off int) []byte {
+		return asm("#1", opSLOAD, opPUSH2, "raw:0100", opADD, "#3", opSSTORE,
+			fmt.Sprintf("#%d", len(runtime)), fmt.Sprintf("#%d", off), "#0", opCODECOPY,
+			fmt.Sprintf("#%d", len(runtime)), "#0", opRETURN)
+	}
+	head := mk(0)
+	head = mk(len(head))
+	return append(head, runtime...)
+}
+
+var child2Init = init2CodeFor(contractRuntime)
 var revertingInit = asm("#0x66", "#1", opSSTORE, "#0", "#0", opREVERT)
 var loopingInit = asm(":top", "#1", "#1", opSSTORE, "@top", opJUMP) // burns all gas
 
@@ -274,6 +302,10 @@ var alphabet = []tmpl{
 		return sign(types.NewTransaction(n, w.NewValB, big.NewInt(0), 3000000, two, in), keyB)
 	}},
 	{Name: "readB", From: "B", Nonce: plain, Want: "ok", ChainOnly: true, Make: func(w *world, n uint64) *types.Transaction { return call(w, "B", n, 6, two) }},
+	{Name: "mk2B", From: "B", Nonce: plain, Want: "ok", ChainOnly: true, Make: func(w *world, n uint64) *types.Transaction {
+		// (re-)create the multi-purpose contract through the factory: CREATE2, always the same address
+		return sign(types.NewTransaction(n, factoryAddr, big.NewInt(0), 700000, two, child2Init), keyB)
+	}},
 	{Name: "exitV3", From: "V3", Nonce: plain, Want: "ok", Make: func(w *world, n uint64) *types.Transaction {
 		// genesis validator 3 withdraws its whole self delegation: it leaves the validator set
 		in, err := w.valAbi.Pack("undelegate")
